@@ -22,7 +22,7 @@ Extraction "../driver/model.ml"
   SrvReq.srv_step
   Paths.sanitize_file_path
   Crash.open_kind Crash.open_kind_rev Crash.steps_create Crash.steps_update Crash.steps_delete Crash.run
-  Auth.authorize
+  Auth.authorize Auth.reduce_devices
   Upgrade.import Upgrade.db_log
   Taint.split_event Taint.join
   Files.freduce Files.receive
